@@ -33,7 +33,7 @@ class Site:
 
     @property
     def key(self) -> str:
-        owner = f"{self.fn.cls.name}.{self.fn.name}" if self.fn.cls else self.fn.qual.split(".", 2)[-1]
+        owner = self.fn.owner
         return f"{owner}:{self.base}:{self.kind}"
 
 
